@@ -219,7 +219,12 @@ func (mb *mbox) createDir() error {
 
 // removeDir removes the mailbox, plus empty higher level directories
 func (mb *mbox) removeDir() error {
-	// remove mailbox dir, including index file
+	// Remove the index first: without it the mailbox reads as empty, whereas an index that
+	// outlives the message files it lists would make those messages unreadable.
+	if err := os.Remove(mb.indexPath); err != nil && !os.IsNotExist(err) {
+		return err
+	}
+	// remove mailbox dir and the remaining files
 	if err := os.RemoveAll(mb.path); err != nil {
 		return err
 	}
